@@ -55,7 +55,7 @@ func (x *Exec) exec(fr *frame, ins ssa.Instruction) {
 		mt := ins.Type().Underlying().(*types.Map)
 		fr.regs[ins] = &MapV{KT: mt.Key(), VT: mt.Elem()}
 	case *ssa.MakeChan:
-		fr.regs[ins] = &ChanV{Kind: "generic"}
+		fr.regs[ins] = &ChanV{Kind: "generic", Cap: x.cint(x.toInt64(x.get(fr, ins.Size).(*term.Term), ins.Size.Type()), "channel buffer size")}
 	case *ssa.Slice:
 		fr.regs[ins] = x.sliceOp(fr, ins)
 	case *ssa.FieldAddr:
@@ -108,6 +108,14 @@ func (x *Exec) exec(fr *frame, ins ssa.Instruction) {
 		fr.regs[ins] = x.selectOp(fr, ins)
 	case *ssa.Send:
 		ch := x.get(fr, ins.Chan).(*ChanV)
+		if ch == nil {
+			panic(pathEnd{"assume", "send on nil channel blocks forever"})
+		}
+		if ch.Kind == "generic" && ch.Cap >= 0 && len(ch.Buf) >= ch.Cap {
+			// sequentialised goroutines: nobody can take a value out while this goroutine waits
+			x.goPanic("DEADLOCK: send on a channel whose buffer is full (no other goroutine runs in the sequential model)", nil)
+		}
+		x.raceAcquire(recvSide{ch}) // the k-th receive happens before the (k+cap)-th send completes
 		x.raceRelease(ch, true)
 		ch.Buf = append(ch.Buf, x.get(fr, ins.X))
 	default:
